@@ -60,6 +60,29 @@ def hashInjective (a : Arpa) : Bool :=
   let set : Std.HashSet (Nat × Nat) := hs.foldl (fun m x => m.insert x) {}
   set.size == hs.length && hs.all (fun x => x.2 != 0)
 
+/-- run-time instance of `probing_build_represents`: every key of `Table.build a` is found in the model-built probing
+structure with payload `toFound` of the table entry (prob, back-off, both marks), via the chained hash -/
+def representsCheck (a : Arpa) (T : Table) (st : KV.ProbingBuild.St) : Bool :=
+  (keys a).all fun g =>
+    match T.lookup g with
+    | none => true
+    | some t =>
+      let want := toFound t
+      match g with
+      | [] => true
+      | [w] => KV.ProbingBuild.wFound false (st.uni.getD w default) == want
+      | _ =>
+        let key := KV.ProbingLM.hashOf KV.ProbingLM.combineReal g
+        if g.length == a.order then
+          match KV.Probing.find id st.longest.t key with
+          | some (some i) => -(st.longest.pay.getD i default).mag == t.prob
+          | _ => false
+        else
+          let o := st.mid.getD (g.length - 2) default
+          match KV.Probing.find id o.t key with
+          | some (some i) => KV.ProbingBuild.wFound false (o.pay.getD i default) == want
+          | _ => false
+
 def load (maxOrder : Nat) (path : String) (buckets : List Nat) : IO (Except String (Loaded × String)) := do
   let bytes ← IO.FS.readBinFile path
   match parse maxOrder (-100) bytes.toList with
@@ -82,6 +105,7 @@ def load (maxOrder : Nat) (path : String) (buckets : List Nat) : IO (Except Stri
       " hashinj=" ++ b2s (hashInjective a) ++
       " pbuild=" ++ (match pb with | .ok _ => "ok" | .error e => e.name) ++
       " pbuildrest=" ++ (match pbR with | .ok _ => "ok" | .error e => e.name) ++
+      " prep=" ++ (match pb with | .ok st => b2s (representsCheck a T st) | .error _ => "-") ++
       " proper=" ++ b2s proper ++ " distinct=" ++ b2s a.keysDistinct ++ " unk=" ++ b2s (!a.unkHallucinated)
     return .ok (L, info)
 
